@@ -138,6 +138,9 @@ pub fn key_string(id: u64) -> String {
         14 => "\r\n".to_string(),
         15 => "e\u{301}".to_string(),
         16 => "\u{e9}".to_string(),
+        // keys that differ only by trailing / only consist of NUL bytes (zero-padding hashers alias them with 8, 7 and 0)
+        17 => "\0".repeat(12),
+        18 => "k\0\0\0\0\0\0\0".to_string(),
         n => format!("key:{n}"),
     }
 }
